@@ -180,4 +180,25 @@ PROPS = {
         "assumptions": ["no uint64 overflow", "the file system returns what was last written (torn writes are explored explicitly as truncations)"],
         "gen_facts": [],
     },
+    "C09": {
+        "level_text": "FULL on the modelled logic: Identity.Merge is shown equal to a specification on the two chains (mergeLoop_eq_spec), "
+                      "from which: remote extends local => local becomes the remote chain, ref at its last commit, reported updated; local "
+                      "equal/ahead => nothing; chains differing after a common prefix => refused, local untouched; the local chain is always "
+                      "a prefix of the result and the first version (the id) never changes; Validate rejects nameless versions, unsafe "
+                      "characters, decreasing and dropped clocks (for unbounded chains)",
+        "level_note": "Trusted: Lean kernel, harness. The text predicates (text.Empty, SafeOneLine, ValidUrl) and key validity are supplied "
+                      "per version as flags by the harness (computed with the real functions). Versions are compared by commit hash, as in "
+                      "the code. Fixed in /repo: Identity.Merge never reported an update.",
+        "required_theorems": ["mergeLoop_eq_spec", "merge_eq_spec", "idMerge_extend", "idMerge_behind", "idMerge_equal", "idMerge_diverge",
+                              "merge_append_only", "merge_keeps_first", "validate_iff", "validateFrom_cons", "rejects_nameless",
+                              "rejects_unsafe", "rejects_decreasing_clock", "rejects_dropped_clock"],
+        "slices": ["C09"],
+        "rule": "validate: crafted chains of 1..4 versions over name/login/email/avatar/nonce classes and clock histories (ok, decreasing, "
+                "dropped, new clock) read back with identity.ReadLocal; merge: every (p,a,b) with p in 1..3(4), a,b in 0..2(3) written "
+                "directly and merged by identity.MergeAll, plus real chains produced by Identity.Mutate on two go-git replicas; "
+                "non-trivial/distinct = distinct flag chains",
+        "trusted_base": [KERNEL, TIE, "model: GitBugModel.Identity (validate, mergeLoop, merge) for entities/identity/identity.go"],
+        "assumptions": ["both identities have the same id (checked by the caller in MergeAll: the local ref is derived from the remote identity's id)"],
+        "gen_facts": [],
+    },
 }
